@@ -3,34 +3,54 @@
 package profile
 
 import (
+	"github.com/aml-org/amf-custom-validator/internal/parser/path"
 	v "github.com/aml-org/amf-custom-validator/internal/zzverif"
 )
 
+// VerifVarGeneratorAt returns a variable generator in an arbitrary state.
+func VerifVarGeneratorAt(counter int) VarGenerator {
+	g := NewVarGenerator()
+	g.counter = counter
+	return g
+}
+
+// VerifNewNested builds a nested expression exactly as the parser does.
+func VerifNewNested(negated bool, parent Variable, p path.PropertyPath, g *VarGenerator, inner func(child Variable) Rule) NestedExpression {
+	n := newNestedExpression(negated, parent, p, g)
+	n.Value = inner(n.Child)
+	return n
+}
+
+// VerifMinCount builds the atom `minCount n` on a path, as the parser does.
+func VerifMinCount(variable Variable, p path.PropertyPath, n int) Rule {
+	return newMinCount(false, variable, p, n)
+}
+
+// VerifSetGenvarCounter puts the process-wide identifier counter in an arbitrary state.
+func VerifSetGenvarCounter(c int) { globalGenerator.counter = c }
+
+// VerifGenvarCounter reads it back.
+func VerifGenvarCounter() int { return globalGenerator.counter }
+
+// VerifCounterState returns an arbitrary counter state: a boundary base plus a symbolic
+// offset (decimal rendering forces the executor to enumerate the offset).
+func VerifCounterState() int {
+	bases := []int{0, 90, 9990, 999990, 1<<31 - 8, 1<<53 - 8, 1<<62 - 8}
+	return bases[v.Choice("counterBase", len(bases))] + v.Int("counterOffset", 0, 15)
+}
+
 // VerifC07Genvar: one inductive step of Genvar from an arbitrary counter state.
 func VerifC07Genvar() {
-	c := v.Int("counter", 0, 1000)
+	c := VerifCounterState()
 	globalGenerator.counter = c
 	name := Genvar("x")
 	v.Reach("named")
 	v.Assert("C07.genvar-step.post", globalGenerator.counter == c+1)
 	name2 := Genvar("x")
 	v.Assert("C07.genvar-step.distinct", name != name2)
-}
-
-func VerifSmoke() {
-	a := v.Int("a", 0, 10)
-	b := v.Int("b", 0, 10)
-	if a+b == 7 {
-		v.Reach("seven")
-		v.Assert("smoke.a-le-7", a <= 7)
-		v.Assert("smoke.a-ne-3", a != 3)
+	v.Assert("C07.genvar-step.post2", globalGenerator.counter == c+2)
+	for i := 0; i < len(name); i++ {
+		ch := name[i]
+		v.Assert("C07.genvar-identifier", ch == '_' || (ch >= 'a' && ch <= 'z') || (ch >= 'A' && ch <= 'Z') || (ch >= '0' && ch <= '9'))
 	}
-	s := v.Bytes("s", 2)
-	if s == "ab" {
-		v.Reach("ab")
-	}
-	t := "x" + s + "y"
-	v.Assert("smoke.len", len(t) == 4)
-	v.Assert("smoke.first", t[0] == 'x')
-	v.Assert("smoke.notq", t[1] != '"')
 }
